@@ -161,6 +161,13 @@ func verif_C17_lookalike() {
 	assume(verifTextOctet(x) && !(x >= '0' && x <= '9'))
 	assume(x != ' ' || lead != "")
 	msg := lead + "5.7.1" + string([]byte{x}) + " relaying denied"
+	if verifChoice(2) == 1 {
+		// the stray octet INSIDE what would otherwise be a code followed by a
+		// space ("+5.7.1 ", "5.-7.1 ", "5.7.x1 " ...): digits and dots only make
+		// an enhanced code, so none of these is one
+		p := nondetInt(0, 4)
+		msg = lead + "5.7.1"[:p] + string([]byte{x}) + "5.7.1"[p:] + " relaying denied"
+	}
 	which := verifChoice(2)
 	berr := &SMTPError{Code: 550, EnhancedCode: NoEnhancedCode, Message: msg}
 	be := &vbackend{}
